@@ -185,10 +185,10 @@ theorem crit_yhat_irrelevant (c : PANOCStopCrit) (hc : c ≠ .Ipopt)
 
 /-- **`ε` in the statistics and in the last callback is `calc_error_stop_crit` of the fields of
     the iterate that is written back**: `(p, γ, x, x̂, ∇ψ(x), ∇ψ(x̂))` of the final iterate `c`
-    (whose `x̂` is the returned `x`), and `ŷ` as it stood at the last head — which is `c.ŷ` itself
-    unless results are written in eager mode (then `ŷ` is re-evaluated at the same `x̂` after `ε` was
-    computed; only the Ipopt criterion reads `ŷ`). The last callback reports exactly the head's
-    iterate, that `ε`, the exit status and the returned iteration count. -/
+    (whose `x̂` is the returned `x`) and its `ŷ` (only the Ipopt criterion reads `ŷ`, and then the loop
+    head has evaluated `ŷ(x̂)` — also with eager evaluation — so that the exit block does not touch it any
+    more). The last callback reports exactly the head's iterate, that `ε`, the exit status and the
+    returned iteration count. -/
 theorem eps_from_final_iterate_of_fuel (P : Problem α) (dir : Direction D α) (d0 : D) (pr : Params α)
     (stop : Nat → Bool) (oot : Bool) (x0 y Sig errz0 gV : Vec α) (gS iS : α) (sh : St α D)
     (hfuel : (run P dir d0 pr stop oot x0 y Sig errz0 gV gS iS).fuelOut = false)
@@ -197,11 +197,9 @@ theorem eps_from_final_iterate_of_fuel (P : Problem α) (dir : Direction D α) (
       (run P dir d0 pr stop oot x0 y Sig errz0 gV gS iS).stats.eps =
         calcErrorStopCrit pr.stopCrit (fun g x gr => ((P.prox g x gr).2.1, (P.prox g x gr).2.2))
           c.p c.gamma c.x c.xhat sh.curr.yhat c.gradPsi c.gradPsiHat ∧
-      ((pr.stopCrit ≠ .Ipopt ∨
-          ((run P dir d0 pr stop oot x0 y Sig errz0 gV gS iS).wrote && pr.eagerGradientEval) = false) →
-        (run P dir d0 pr stop oot x0 y Sig errz0 gV gS iS).stats.eps =
+      (run P dir d0 pr stop oot x0 y Sig errz0 gV gS iS).stats.eps =
           calcErrorStopCrit pr.stopCrit (fun g x gr => ((P.prox g x gr).2.1, (P.prox g x gr).2.2))
-            c.p c.gamma c.x c.xhat c.yhat c.gradPsi c.gradPsiHat) ∧
+            c.p c.gamma c.x c.xhat c.yhat c.gradPsi c.gradPsiHat ∧
       ((run P dir d0 pr stop oot x0 y Sig errz0 gV gS iS).wrote = true →
         (run P dir d0 pr stop oot x0 y Sig errz0 gV gS iS).x = c.xhat ∧
         (run P dir d0 pr stop oot x0 y Sig errz0 gV gS iS).y = c.yhat) ∧
@@ -225,11 +223,21 @@ theorem eps_from_final_iterate_of_fuel (P : Problem α) (dir : Direction D α) (
                  it := sh.curr, fbe := sh.curr.fbe, q := [], tau := -1, eps := epsOf P pr sh.curr },
     hc, ?_, ?_, hw, ?_, rfl, ?_, ?_, ?_⟩
   · rw [hf.2.1]; exact heps
-  · intro hor
-    rw [hf.2.1, heps]
-    rcases hor with hi | he
+  · rw [hf.2.1, heps]
+    by_cases hi : pr.stopCrit = .Ipopt
+    · -- the head of an Ipopt run has evaluated ŷ: the exit block leaves the iterate alone
+      have hv : sh.yhatValid = true := by
+        unfold finalHead at hh
+        cases hs : initState P d0 pr stop x0 gV gS iS with
+        | inl t => rw [hs] at hh; exact absurd hh (by simp)
+        | inr s0 =>
+          rw [hs] at hh
+          injection hh with hh
+          rw [← hh, (headStep_curr P pr stop oot _).2.1]
+          unfold headYhatValid headReadsYhat
+          rw [hi]; simp
+      rw [hsame (by rw [hv]; simp)]
     · exact crit_yhat_irrelevant _ hi _ _ _ _ _ _ _ _ _
-    · rw [hsame he]
   · rw [hcb]; simp
   · rw [hf.2.1]
   · rw [hf.1]
@@ -442,11 +450,9 @@ theorem eps_from_final_iterate (P : Problem α) (dir : Direction D α) (d0 : D) 
       (run P dir d0 pr stop oot x0 y Sig errz0 gV gS iS).stats.eps =
         calcErrorStopCrit pr.stopCrit (fun g x gr => ((P.prox g x gr).2.1, (P.prox g x gr).2.2))
           c.p c.gamma c.x c.xhat sh.curr.yhat c.gradPsi c.gradPsiHat ∧
-      ((pr.stopCrit ≠ .Ipopt ∨
-          ((run P dir d0 pr stop oot x0 y Sig errz0 gV gS iS).wrote && pr.eagerGradientEval) = false) →
-        (run P dir d0 pr stop oot x0 y Sig errz0 gV gS iS).stats.eps =
+      (run P dir d0 pr stop oot x0 y Sig errz0 gV gS iS).stats.eps =
           calcErrorStopCrit pr.stopCrit (fun g x gr => ((P.prox g x gr).2.1, (P.prox g x gr).2.2))
-            c.p c.gamma c.x c.xhat c.yhat c.gradPsi c.gradPsiHat) ∧
+            c.p c.gamma c.x c.xhat c.yhat c.gradPsi c.gradPsiHat ∧
       ((run P dir d0 pr stop oot x0 y Sig errz0 gV gS iS).wrote = true →
         (run P dir d0 pr stop oot x0 y Sig errz0 gV gS iS).x = c.xhat ∧
         (run P dir d0 pr stop oot x0 y Sig errz0 gV gS iS).y = c.yhat) ∧
@@ -471,6 +477,11 @@ theorem noProgress_needs_consecutive (P : Problem α) (dir : Direction D α) (d0
 
 /-! ### ε is the documented formula, recomputed from the data of the written-back point -/
 
+/-- the documented formulas other than Ipopt's do not mention `ŷ` -/
+theorem docCrit_yhat_irrelevant (PC : Vec α → Vec α) (c : PANOCStopCrit) (hc : c ≠ .Ipopt) (γ : α)
+    (x xh yh yh' g gh : Vec α) : docCrit PC c γ x xh yh g gh = docCrit PC c γ x xh yh' g gh := by
+  cases c <;> first | rfl | exact absurd rfl hc
+
 /-- **The reported `ε` equals the documented formula of the selected criterion recomputed from the
     final iterate data `(x, x̂, γ, ∇ψ(x), ∇ψ(x̂), ŷ)`** — all ten criteria, every solve that reached the
     main loop, every direction provider, monotone stop flag, parameters satisfying `FuelOK`, lazy and
@@ -480,20 +491,24 @@ theorem noProgress_needs_consecutive (P : Problem α) (dir : Direction D α) (d0
     * `γ > 0`;
     * `c` carries the proximal data of its own point: `x̂ = Π_C(x − γ∇ψ(x))`, `p = x̂ − x`
       (`Consistent`), with `∇ψ`-field `= ∇ψ(x)`;
-    * the `∇ψ(x̂)` buffer holds `∇ψ(x̂)` whenever the criterion reads it, `ŷ`-field `= ŷ(x̂)`;
+    * the `∇ψ(x̂)` buffer holds `∇ψ(x̂)` whenever the criterion reads it;
+    * the `ŷ`-field is `ŷ(x̂)` whenever it is read or written back: for the Ipopt criterion, with lazy
+      evaluation, and whenever the results are written (with eager evaluation and another criterion the
+      field handed to the progress callback is the workspace of `eval_ψ_grad_ψ` — documented so in
+      `PANOCProgressInfo::ŷ`);
     * hence `stats.ε = docCrit` — `Props/C06`'s independent specification of the documented formulas —
       evaluated at `(γ, x, x̂, ŷ(x̂), ∇ψ(x), ∇ψ(x̂))`, where `x̂`, `ŷ(x̂)` are the returned `x`, `y`.
 
     Hypotheses on the problem: its prox step is the projection step (`ProxIsProj`) and its oracles are
-    consistent with one gradient map (`GradLaw`: `eval_ψ_grad_ψ`, `eval_grad_ψ`, `eval_grad_L(·, ŷ(·))` agree;
-    only with `eager_gradient_eval` also: `eval_ψ_grad_ψ` leaves `ŷ` in its workspace — forced, the real
-    solver reads that workspace as `ŷ`: open finding `C06-panoc-eager-workspace-as-yhat`).  The loop part is the data invariant `Doc` of
-    `Proofs/PanocDoc` (it depends on `take_safe_step` clearing both `have_grad_ψx̂` flags and on
-    `eval_ψx̂` resetting the flag after every new step). -/
+    consistent with one gradient map (`GradLaw`: `eval_ψ_grad_ψ`, `eval_grad_ψ`, `eval_grad_L(·, ŷ(·))`
+    agree).  Nothing is assumed about the workspace of `eval_ψ_grad_ψ` (repaired finding
+    `C06-panoc-eager-workspace-as-yhat`: the loop head evaluates `ŷ(x̂)` where it is read).  The loop part
+    is the data invariant `Doc` of `Proofs/PanocDoc` (it depends on `take_safe_step` clearing both
+    `have_grad_ψx̂` flags and on `eval_ψx̂` resetting the flag after every new step). -/
 theorem eps_is_documented (hnn : ∀ a : α, RealLike.isNaN a = false) (PC : Vec α → Vec α)
-    (P : Problem α)
+    (P : Problem α) (hL : GradLaw P)
     (hP : ProxIsProj PC (fun γ x g => ((P.prox γ x g).2.1, (P.prox γ x g).2.2)))
-    (dir : Direction D α) (d0 : D) (pr : Params α) (hL : GradLaw P pr.eagerGradientEval)
+    (dir : Direction D α) (d0 : D) (pr : Params α)
     (stop : Nat → Bool) (hm : StopMono stop) (n K : Nat) (hF : FuelOK pr n K) (oot : Bool)
     (x0 y Sig errz0 gV : Vec α) (gS iS : α) (sh : St α D)
     (hh : finalHead P dir d0 pr stop oot x0 gV gS iS = some sh) :
@@ -502,7 +517,9 @@ theorem eps_is_documented (hnn : ∀ a : α, RealLike.isNaN a = false) (PC : Vec
       Consistent PC c.gamma c.p c.x c.xhat (P.gradPsi c.x) ∧
       c.gradPsi = P.gradPsi c.x ∧
       (requiresGradHat pr.stopCrit = true → c.gradPsiHat = P.gradPsi c.xhat) ∧
-      c.yhat = (P.psi c.xhat).2 ∧
+      ((pr.stopCrit = .Ipopt ∨ pr.eagerGradientEval = false ∨
+          (run P dir d0 pr stop oot x0 y Sig errz0 gV gS iS).wrote = true) →
+        c.yhat = (P.psi c.xhat).2) ∧
       ((run P dir d0 pr stop oot x0 y Sig errz0 gV gS iS).wrote = true →
         (run P dir d0 pr stop oot x0 y Sig errz0 gV gS iS).x = c.xhat ∧
         (run P dir d0 pr stop oot x0 y Sig errz0 gV gS iS).y = (P.psi c.xhat).2) ∧
@@ -511,8 +528,11 @@ theorem eps_is_documented (hnn : ∀ a : α, RealLike.isNaN a = false) (PC : Vec
   have hfuel := run_fuel_suffices P dir d0 pr stop hm n K hF oot x0 y Sig errz0 gV gS iS
   have hrun := run_eq_exit_of_fuel P dir d0 pr stop oot x0 y Sig errz0 gV gS iS sh hfuel hh
   -- the invariant at the last head
-  have hdoc : Doc P sh.curr ∧ 0 < sh.curr.gamma ∧
-      (requiresGradHat pr.stopCrit = true → sh.curr.haveGradHat = true) := by
+  have hdoc : Doc P pr.eagerGradientEval sh.curr ∧ 0 < sh.curr.gamma ∧
+      (requiresGradHat pr.stopCrit = true → sh.curr.haveGradHat = true) ∧
+      (sh.yhatValid = true → sh.curr.yhat = (P.psi sh.curr.xhat).2) ∧
+      (pr.stopCrit = .Ipopt → sh.yhatValid = true) ∧
+      (pr.eagerGradientEval = false → sh.yhatValid = true) := by
     have hi := initState_doc d0 pr hL stop x0 gV gS iS
     have hfi := initState_finv P d0 pr stop x0 gV gS iS n K hF
     unfold finalHead at hh
@@ -522,22 +542,40 @@ theorem eps_is_documented (hnn : ∀ a : α, RealLike.isNaN a = false) (PC : Vec
       rw [hs] at hh hi hfi
       simp only [] at hi hfi
       injection hh with hh
-      have hl := lastHead_doc dir pr hL stop n K hF oot (pr.maxIter + 2) s hi hfi.1
+      have hl := lastHead_doc dir pr hL stop hm n K hF oot (pr.maxIter + 2) s hi.1
+        (fun he => Or.inl (by rw [hi.2]; exact he)) hfi.1
       have hd := headStep_doc pr hL stop oot _ hl.1
       have hf := headStep_finv P pr stop oot _ hl.2
-      rw [hh] at hd hf
-      exact ⟨hd.1, hf.gok.1, hd.2⟩
-  obtain ⟨hd, hγ, hflag⟩ := hdoc
+      have hyv := (headStep_curr P pr stop oot
+        (lastHead P dir pr stop oot (pr.maxIter + 2) s)).2.1
+      rw [hh] at hd hf hyv
+      refine ⟨hd.1, hf.gok.1, hd.2.1, hd.2.2.1, hd.2.2.2.1, fun he => ?_⟩
+      rw [hyv]; unfold headYhatValid; rw [he]; rfl
+  obtain ⟨hd, hγ, hflag, hyv, hIp, hlazy⟩ := hdoc
   rw [hrun.2]
   have hf := exitBlock_fields P pr sh (epsOf P pr sh.curr)
     (statusOf pr sh.k (epsOf P pr sh.curr) sh.noProgress oot (stop sh.tick)) x0 y Sig errz0
-  obtain ⟨c, hc, hx, hxh, hp, hg, hgr, hgrh, _, _, hw⟩ := exitBlock_final P pr sh (epsOf P pr sh.curr)
+  obtain ⟨c, hc, hx, hxh, hp, hg, hgr, hgrh, _, hsame, hw⟩ := exitBlock_final P pr sh (epsOf P pr sh.curr)
     (statusOf pr sh.k (epsOf P pr sh.curr) sh.noProgress oot (stop sh.tick)) x0 y Sig errz0
-  have hyc : c.yhat = (P.psi c.xhat).2 := by
-    rcases exitBlock_final_yhat P pr sh (epsOf P pr sh.curr)
-      (statusOf pr sh.k (epsOf P pr sh.curr) sh.noProgress oot (stop sh.tick)) x0 y Sig errz0 c hc with h | h
-    · rw [h, hxh]; exact hd.yh
-    · rw [h, hxh]
+  have hcy := exitBlock_final_yhat P pr sh (epsOf P pr sh.curr)
+    (statusOf pr sh.k (epsOf P pr sh.curr) sh.noProgress oot (stop sh.tick)) x0 y Sig errz0 c hc
+  -- ŷ of the written-back iterate is ŷ(x̂) whenever it is read or written
+  have hyc : (pr.stopCrit = .Ipopt ∨ pr.eagerGradientEval = false ∨
+      (exitBlock P pr sh (epsOf P pr sh.curr)
+        (statusOf pr sh.k (epsOf P pr sh.curr) sh.noProgress oot (stop sh.tick)) x0 y Sig errz0).wrote = true) →
+      c.yhat = (P.psi c.xhat).2 := by
+    intro hor
+    cases hb : ((exitBlock P pr sh (epsOf P pr sh.curr)
+        (statusOf pr sh.k (epsOf P pr sh.curr) sh.noProgress oot (stop sh.tick)) x0 y Sig errz0).wrote &&
+        !sh.yhatValid) with
+    | true => rw [hcy.1 hb, hxh]
+    | false =>
+      rw [hcy.2 hb, hxh]
+      apply hyv
+      rcases hor with h | h | h
+      · exact hIp h
+      · exact hlazy h
+      · rw [h] at hb; simpa using hb
   -- the head's data, restated for `c`
   have hgx : c.gradPsi = P.gradPsi c.x := by rw [hgr, hx]; exact hd.gx
   have hcons : Consistent PC c.gamma c.p c.x c.xhat (P.gradPsi c.x) := by
@@ -554,14 +592,23 @@ theorem eps_is_documented (hnn : ∀ a : α, RealLike.isNaN a = false) (PC : Vec
     rw [hgrh, hxh]; exact hd.gh (hflag hr)
   refine ⟨c, hc, by rw [hg]; exact hγ, hcons, hgx, hgh, hyc, fun hw' => ?_, ?_⟩
   · have := hw hw'
-    exact ⟨this.1, by rw [this.2]; exact hyc⟩
+    exact ⟨this.1, by rw [this.2]; exact hyc (Or.inr (Or.inr hw'))⟩
   · rw [hf.2.1]
-    -- ε at the head is the generated criterion of the head's fields = those of `c`
+    -- ε at the head is the generated criterion of the head's fields = those of `c` (ŷ as the head had it)
     have heps : epsOf P pr sh.curr =
         calcErrorStopCrit pr.stopCrit (fun γ x g => ((P.prox γ x g).2.1, (P.prox γ x g).2.2))
-          c.p c.gamma c.x c.xhat (P.psi c.xhat).2 (P.gradPsi c.x) c.gradPsiHat := by
-      rw [← hgx, hx, hxh, hp, hg, hgr, hgrh, ← hd.yh]; rfl
+          c.p c.gamma c.x c.xhat sh.curr.yhat (P.gradPsi c.x) c.gradPsiHat := by
+      rw [← hgx, hx, hxh, hp, hg, hgr, hgrh]; rfl
     rw [heps]
+    -- replace the head's ŷ by ŷ(x̂): it is that for Ipopt, and irrelevant otherwise
+    have hyy : calcErrorStopCrit pr.stopCrit (fun γ x g => ((P.prox γ x g).2.1, (P.prox γ x g).2.2))
+          c.p c.gamma c.x c.xhat sh.curr.yhat (P.gradPsi c.x) c.gradPsiHat =
+        calcErrorStopCrit pr.stopCrit (fun γ x g => ((P.prox γ x g).2.1, (P.prox γ x g).2.2))
+          c.p c.gamma c.x c.xhat (P.psi c.xhat).2 (P.gradPsi c.x) c.gradPsiHat := by
+      by_cases hi : pr.stopCrit = .Ipopt
+      · rw [hyv (hIp hi), hxh]
+      · exact crit_yhat_irrelevant _ hi _ _ _ _ _ _ _ _ _
+    rw [hyy]
     by_cases hr : requiresGradHat pr.stopCrit = true
     · rw [hgh hr]
       exact calcErrorStopCrit_eq_doc hnn PC _ hP _ _ (by rw [hg]; exact ne_of_gt hγ) _ _ _ _ _ _ hcons
@@ -674,7 +721,7 @@ def Pdoc : Problem ℚ where
   gradL x _ := x
   prox γ x g := (0, vsub x (smul γ g), vsub (vsub x (smul γ g)) x)
 
-theorem gradLaw_Pdoc (e : Bool) : GradLaw Pdoc e := ⟨fun _ => rfl, fun _ => rfl, fun _ _ => rfl⟩
+theorem gradLaw_Pdoc : GradLaw Pdoc := ⟨fun _ => rfl, fun _ => rfl⟩
 
 theorem proxIsProj_Pdoc :
     ProxIsProj id (fun γ x g => ((Pdoc.prox γ x g).2.1, (Pdoc.prox γ x g).2.2)) := fun _ _ _ => rfl
@@ -696,8 +743,8 @@ example (crit : PANOCStopCrit) (sh : St ℚ Unit)
   have hF : FuelOK { prq with stopCrit := crit } 1 9 := by
     refine ⟨?_, ?_, ?_, ?_, ?_, by norm_num, ?_, ?_⟩ <;> norm_num [prq, Lstart]
   obtain ⟨c, hc, hγ, hcons, _, _, _, _, heps⟩ :=
-    eps_is_documented (fun _ => rfl) id Pdoc proxIsProj_Pdoc dirNoop ()
-      { prq with stopCrit := crit } (gradLaw_Pdoc _) (stopAt none) (stopAt_mono none) 1 9 hF false [1] [] [] [] [] 0 0 sh hh
+    eps_is_documented (fun _ => rfl) id Pdoc gradLaw_Pdoc proxIsProj_Pdoc dirNoop ()
+      { prq with stopCrit := crit } (stopAt none) (stopAt_mono none) 1 9 hF false [1] [] [] [] [] 0 0 sh hh
   exact ⟨c, hc, hγ, hcons.hxh, hcons.hp, heps⟩
 
 /-- the same with `eager_gradient_eval = true` and a stop request landing in the first line search
@@ -712,8 +759,8 @@ example (crit : PANOCStopCrit) (sh : St ℚ Unit)
   have hF : FuelOK { prq with stopCrit := crit, eagerGradientEval := true } 1 9 := by
     refine ⟨?_, ?_, ?_, ?_, ?_, by norm_num, ?_, ?_⟩ <;> norm_num [prq, Lstart]
   obtain ⟨c, hc, hγ, _, _, _, _, _, heps⟩ :=
-    eps_is_documented (fun _ => rfl) id Pdoc proxIsProj_Pdoc dirNoop ()
-      { prq with stopCrit := crit, eagerGradientEval := true } (gradLaw_Pdoc _) (stopAt (some 7))
+    eps_is_documented (fun _ => rfl) id Pdoc gradLaw_Pdoc proxIsProj_Pdoc dirNoop ()
+      { prq with stopCrit := crit, eagerGradientEval := true } (stopAt (some 7))
       (stopAt_mono (some 7)) 1 9 hF false [1] [] [] [] [] 0 0 sh hh
   exact ⟨c, hc, hγ, heps⟩
 
@@ -721,6 +768,37 @@ example : (run Pdoc dirNoop () { prq with stopCrit := .ApproxKKT, eagerGradientE
       (stopAt (some 7)) false [1] [] [] [] [] 0 0).stats.status = .Interrupted ∧
     (finalHead Pdoc dirNoop () { prq with stopCrit := .ApproxKKT, eagerGradientEval := true }
       (stopAt (some 7)) false [1] [] 0 0).isSome = true := by decide +kernel
+
+/-- a problem whose `eval_ψ_grad_ψ` uses its m-workspace as scratch (`[777]`, while `ŷ(x) = [0]`): nothing
+    is assumed about that workspace any more -/
+def PdocW : Problem ℚ where
+  psiGradPsi x := (sqNorm x / 2, x, [777])
+  psi x := (sqNorm x / 2, [0])
+  gradPsi x := x
+  gradL x _ := x
+  prox γ x g := (0, vsub x (smul γ g), vsub (vsub x (smul γ g)) x)
+
+/-- eager evaluation, Ipopt criterion, scratch workspace: `ε` is the documented formula with `ŷ(x̂) = [0]`,
+    and `[0]` — not the scratch — is written back -/
+example (sh : St ℚ Unit)
+    (hh : finalHead PdocW dirNoop () { prq with stopCrit := .Ipopt, eagerGradientEval := true }
+      (stopAt none) false [1] [] 0 0 = some sh) :
+    ∃ c, (run PdocW dirNoop () { prq with stopCrit := .Ipopt, eagerGradientEval := true } (stopAt none) false
+        [1] [5] [1] [7] [] 0 0).final = some c ∧ c.yhat = [0] ∧
+      (run PdocW dirNoop () { prq with stopCrit := .Ipopt, eagerGradientEval := true } (stopAt none) false
+        [1] [5] [1] [7] [] 0 0).stats.eps = docCrit id .Ipopt c.gamma c.x c.xhat [0] c.x c.xhat := by
+  have hF : FuelOK { prq with stopCrit := .Ipopt, eagerGradientEval := true } 1 9 := by
+    refine ⟨?_, ?_, ?_, ?_, ?_, by norm_num, ?_, ?_⟩ <;> norm_num [prq, Lstart]
+  obtain ⟨c, hc, _, _, _, _, hy, _, heps⟩ :=
+    eps_is_documented (fun _ => rfl) id PdocW ⟨fun _ => rfl, fun _ => rfl⟩ (fun _ _ _ => rfl) dirNoop ()
+      { prq with stopCrit := .Ipopt, eagerGradientEval := true } (stopAt none)
+      (stopAt_mono none) 1 9 hF false [1] [5] [1] [7] [] 0 0 sh hh
+  exact ⟨c, hc, hy (Or.inl rfl), heps⟩
+
+example : (run PdocW dirNoop () { prq with stopCrit := .Ipopt, eagerGradientEval := true } (stopAt none) false
+      [1] [5] [1] [7] [] 0 0).y = [0] ∧
+    (finalHead PdocW dirNoop () { prq with stopCrit := .Ipopt, eagerGradientEval := true }
+      (stopAt none) false [1] [] 0 0).isSome = true := by decide +kernel
 
 /-! `NotFinite`: a carrier whose `isFinite` is `|q| < 1000` (`rlBounded`; the theorems hold for any
     `RealLike`), `+∞ := 10⁶`. -/
